@@ -37,6 +37,10 @@ CLAIMED["C14"] = ("ID Token issuance over a go-jose model validated natively aga
 CLAIMED["C15"] = ("private_key_jwt client assertions and RFC 7523 JWT-bearer grants over a go-jose model (natively real keys and JWS): every claim absent / wrong type / wrong value / boundary (symbolic iss, sub, aud, jti strings and exp/iat/nbf offsets), alg x kid x signing key x registered alg x JWKS arrangement, replay at a symbolic offset around exp; accepted => every conjunct of the statement; the mark-if-absent lemma on MemoryStore.SetClientAssertionJWT / ClientAssertionJWTValid from a symbolic blacklist of <= 3 (4) entries. The concurrency clause is covered compositionally with C19's lock lemma (interleavings are not enumerated).", "6/C15", T_PURE)
 CLAIMED["C20"] = ("Error responses and storage hygiene: every exported RFC error x symbolic hint/debug/description strings x legacy x expose through 12 error writers/modes against structural models of json/url encoding (status = code, error = RFC name, description free of quotes for ALL strings, Location = base + encoded values), non-interference of the debug field when exposure is off (two runs), cache headers on every writer path, reflection of symbolic values only through the encoder / template data; a spy store over the real MemoryStore in 10 (12) flows: no storage key equals a complete credential, no stored form carries client_secret, password, code_verifier, client_assertion or a complete credential (also as two-run non-interference with symbolic secrets).", "6/C20", T_PURE)
 
+CLAIMED["C03"] = ("PKCE over the composed provider and the real MemoryStore: authorization (code flow; thorough: OIDC hybrid) with configuration (EnforcePKCE, EnforcePKCEForPublicClients, EnablePKCEPlainChallengeMethod) and client.Public as solver Booleans, challenge kinds (S256(v0), plain, truncated, unrelated, absent) and methods, then k <= 2 (3) redemption attempts on the SAME code with verifiers absent / short / wrong / for the other method / correct / bad character / 129 chars and symbolic verifier and challenge strings (fixed prefix + <= 8 free characters; PKCE regex translated to SMT regular expressions; SHA-256/base64 as uninterpreted functions with inverse axioms): every successful attempt has a well-formed verifier that transforms to the stored challenge regardless of earlier failed attempts; enforcement and plain-method rules.", "6/C03", T_STATE)
+CLAIMED["C16"] = ("Device grant over the composed provider: device authorization, user decision (none / accept / reject), polls by a presenter with SYMBOLIC client id after a symbolic clock advance (0..20 min), code kinds (real, forged with stored signature, user code, unknown), replay after success, sweep; against the real MemoryStore and against a wrapper that follows the documented 'invalidated => return the request with ErrInvalidatedDeviceCode' contract: tokens only when accepted, same client, unexpired, first success; pending / denied / expired / wrong-client classes (overlaps accept either); replay never yields tokens and, with the contract store, kills the issued tokens; the store only ever receives signatures.", "6/C16", T_STATE)
+CLAIMED["C17"] = ("Pushed authorization requests over the composed provider: push variants (7) with symbolic state / scope, symbolic clock advance (0..10 min), then 2 (3) uses through NewAuthorizeRequest with request_uri in {returned, unknown with prefix, foreign prefix, none}, SYMBOLIC client_id and six conflicting symbolic query parameters, enforcement flag as a solver Boolean (thorough: second pusher, custom prefix): a use proceeds only for the pushing client, once, before expiry; the resulting request carries the pushed redirect URI, response type/mode, scope, state, audience whatever the query says; push with request_uri or without client authentication refused; enforcement refuses plain requests.", "6/C17", T_STATE)
+
 NOT_YET = {}
 
 def main():
